@@ -84,7 +84,37 @@ def kkt_contract(F, pi, upi, lpi, objval):
 def user_certificate(sense, ns_variant):
     variant = ns_variant
 
+    def setup_matrix(c):
+        # a 2-D variable: constraints and bounds of shapes (2,3), (3,), (2,2), (2,), each dual shaped like its constraint
+        m = ro.Model()
+        X = m.dvar((2, 3))
+        cost = arr([_nz(c, f"c{i}") for i in range(6)])
+        (m.min if sense == "min" else m.max)((cost.reshape((2, 3)) * X).sum())
+        W = arr([_nz(c, f"w{i}") for i in range(6)]).reshape((2, 3))
+        k1 = m.st(W * X + X[::-1] <= sym_array(c, (2, 3), "B1"))
+        a = arr([_nz(c, f"g{i}") for i in range(2)])
+        k2 = m.st(a @ X >= sym_array(c, (3,), "b2"))
+        k3 = m.st(X[:, ::-1] - 2 * X == sym_array(c, (2, 3), "b3"))
+        bU = m.st(X[:, 1:] <= c.fresh_real("u0"))
+        bL = m.st(X >= sym_array(c, (2, 3), "L"))
+        bU2 = m.st(X[:, 0] <= c.fresh_real("u1"))
+        bounds = [(bU, [1, 2, 4, 5], "U"), (bL, [0, 1, 2, 3, 4, 5], "L"), (bU2, [0, 3], "U")]
+        F = m.do_math()
+        nr, nv = F.linear.shape
+        pi = arr([c.fresh_real(f"pi{i}_") for i in range(nr)])
+        upi = arr([c.fresh_real(f"up{i}_") for i in range(nv)])
+        lpi = arr([c.fresh_real(f"lo{i}_") for i in range(nv)])
+        objval = c.fresh_real("objval")
+        c.assume(kkt_contract(F, pi, upi, lpi, objval))
+        sol = lp.Solution("rec", objval, arr([c.fresh_real(f"sx{i}_") for i in range(nv)]), 0, 0.0, y={"pi": pi, "upi": upi, "lpi": lpi})
+        m.rc_model.solution = sol
+        m.solution = sol
+        return {"m": m, "x": X, "cost": cost, "ks": [k1, k2, k3], "bounds": bounds, "F": F, "sense": sense, "n": 6,
+                "expect": ([(2, 3), (3,), (2, 3)], [(2, 2), (2, 3), (2,)])}
+
     def setup(c):
+        if ns_variant == "matrix":
+            return setup_matrix(c)
         m = ro.Model()
         x = m.dvar(3)
         cost = arr([_nz(c, f"c{i}") for i in range(3)])
@@ -141,6 +171,8 @@ def user_certificate(sense, ns_variant):
 
     def shapes(ns, res):
         ds, bs, _ = res
+        if "expect" in ns:
+            return all(np.shape(d) == e for d, e in zip(ds, ns["expect"][0])) and all(np.shape(v) == e for v, e in zip(bs, ns["expect"][1]))
         ok = np.shape(ds[0]) == (2,) and np.shape(ds[1]) == () and np.shape(ds[2]) == ()
         for k, d in zip(ns["ks"][3:], ds[3:]):
             ok = ok and np.shape(d) == (k.linear.shape[0],)
@@ -152,7 +184,7 @@ def user_certificate(sense, ns_variant):
         ds, bs, _ = res
         x = ns["x"]
         terms = []
-        for j in range(3):
+        for j in range(ns.get("n", 3)):
             col = x.first + j
             acc = 0.0
             for k, d in zip(ns["ks"], ds):
@@ -403,7 +435,7 @@ def ecos_contract(ns, sol):
 
 
 def jobs(tier):
-    js = [{"name": f"certificate-{s}-{v}", "kind": "cert", "sense": s, "variant": v} for s in ("min", "max") for v in ("whole", "slices", "permuted", "permuted-partial", "whole+reformulated", "permuted-partial+reformulated")]
+    js = [{"name": f"certificate-{s}-{v}", "kind": "cert", "sense": s, "variant": v} for s in ("min", "max") for v in ("whole", "slices", "permuted", "permuted-partial", "whole+reformulated", "permuted-partial+reformulated", "matrix")]
     js += [{"name": "unsolved", "kind": "unsolved"}, {"name": "extraction", "kind": "extraction"}, {"name": "extraction-gurobi", "kind": "extraction-gurobi"}]
     return js
 
